@@ -232,6 +232,32 @@ func c03Layout(c *Ctx) {
 		return false
 	}
 	c.Check(rule, fnName(rdb)+"|key=4+2+16+1", len(mk) >= 1 && has(mk, 23) && has(lows, 4) && has(lows, 6) && has(lows, 22), rdb.Pos(), fmt.Sprintf("allocated %v bytes, components copied at offsets %v", mk, lows))
+	// the found range point has to belong to THIS map: the guard after the closest-key search compares the marker AND
+	// the map id, i.e. the whole prefix in front of the address (seed c10g compared the 4 marker bytes only, so the
+	// trailing range of the map sorting before decided)
+	var guardHighs []int64
+	for _, ci := range callInstrs(rdb) {
+		f := calleeOf(ci.Common())
+		if f == nil || f.Pkg() == nil || f.Pkg().Path() != "bytes" || (f.Name() != "Equal" && f.Name() != "HasPrefix") {
+			continue
+		}
+		for _, a := range ci.Common().Args {
+			if sl, ok := a.(*ssa.Slice); ok && sl.High != nil && sl.Low == nil {
+				if hs := evalIntSet(sl.High, 0); len(hs) == 1 {
+					for k := range hs {
+						guardHighs = append(guardHighs, k)
+					}
+				}
+			}
+		}
+	}
+	okGuard := len(guardHighs) > 0
+	for _, k := range guardHighs {
+		if k != 6 {
+			okGuard = false
+		}
+	}
+	c.Check(rule, fnName(rdb)+"|found-key-of-this-map", okGuard, rdb.Pos(), fmt.Sprintf("prefix lengths compared between the found key and the search key: %v (marker 4 + map id 2 = 6)", guardHighs))
 	cdbf := c.Func("db", "(*cdbdriver).GetLocationByMap")
 	c.Examined(cdbf)
 	mk2, lows2 := consts(cdbf)
